@@ -40,6 +40,7 @@ MIN_REACH = {
     "script_executions": {"quick": 35, "thorough": 400},
     "programs_compiled": {"quick": 35, "thorough": 400},
     "cli_runs": {"quick": 4, "thorough": 40},
+    "cli_runs_with_function_in_a_module_beside_the_crop": {"quick": 2, "thorough": 15},
     "partial_state_scripts": {"quick": 12, "thorough": 120},
 }
 TIME_BUDGET = {"quick": 500, "thorough": 3400}
@@ -78,7 +79,10 @@ def cases(ctx):
             idx += 1
     for i in range(ctx.pick(6, 50)):
         yield {"cli": True, "B": rng.randint(1, 6), "bs": rng.choice([1, 2]), "state": rng.choice(["none", "some", "all_but_one"]),
-               "num_workers": rng.choice([None, None, 2]), "idx": 10000 + i, "oseed": rng.randint(0, 10 ** 9)}
+               "num_workers": rng.choice([None, None, 2]), "idx": 10000 + i, "oseed": rng.randint(0, 10 ** 9),
+               # the swept function lives in a module next to the crop (pickled by reference) and the tool is started
+               # from another directory: --parent-dir is all it has to find it
+               "user_module": i % 2 == 1}
 
 
 def _options(rng, sch):
@@ -136,6 +140,19 @@ def run_case(ctx, case):
     B_target, bs = case["B"], case["bs"]
     n = B_target * bs
     fn = probe.Probe("tuple:2", logfile=logfile, name="qprobe")
+    if case.get("cli") and case.get("user_module"):
+        import sys
+        import importlib
+        modname = "vf_usermod_%d_%d" % (case["idx"], os.getpid())
+        with open(os.path.join(tmp, modname + ".py"), "w") as f:
+            f.write("from vf.probe_core import probe_call\nLOG = %r\n\n\ndef qprobe(a):\n"
+                    "    return probe_call({'a': a}, 'tuple:2', logfile=LOG)\n" % (logfile,))
+        sys.path.insert(0, tmp)
+        try:
+            fn = importlib.import_module(modname).qprobe
+        finally:
+            sys.path.remove(tmp)
+        ctx.count("cli_runs_with_function_in_a_module_beside_the_crop")
     w = {"mode": "grid", "combos": [["a", list(range(1, n + 1))]], "names": None, "cases": None, "constants": {}}
     sig = {"api": "xyzpy-grow" if case.get("cli") else "gen_cluster_script", "scheduler": str(case.get("scheduler", "")).lower(),
            "mode": case.get("mode"), "state": case["state"], "ids_kind": case.get("ids_kind")}
@@ -169,7 +186,7 @@ def run_case(ctx, case):
         args = ["/venv/bin/python", "/venv/bin/xyzpy-grow", NAME, "--parent-dir", tmp]
         if case["num_workers"]:
             args += ["--num-workers", str(case["num_workers"])]
-        r = subprocess.run(args, env=env, cwd=tmp, capture_output=True, timeout=300)
+        r = subprocess.run(args, env=env, cwd="/" if case.get("user_module") else tmp, capture_output=True, timeout=300)
         ctx.count("cli_runs")
         got, log_off = calls_since(log_off)
         if r.returncode != 0:
@@ -177,7 +194,9 @@ def run_case(ctx, case):
         if sorted(got) != expect_calls(missing0):
             bad.append("xyzpy-grow evaluated %d settings, the missing batches %s hold %d" % (len(got), missing0, len(expect_calls(missing0))))
         _final(ctx, case, crop, w, bad, sig, tmp, allb)
-        ctx.observe(case, key=("cli", B, case["state"], case["num_workers"]), nontrivial=len(missing0) >= 2,
+        for msg in bad[:2]:
+            ctx.violation(case, msg, dict(sig, oracle=" ".join(msg.split(" ")[:3]), user_module=bool(case.get("user_module"))))
+        ctx.observe(case, key=("cli", B, case["state"], case["num_workers"], bool(case.get("user_module"))), nontrivial=len(missing0) >= 2,
                     info={"missing_before": missing0, "calls": len(got)})
         ctx.rmtree(tmp)
         return
